@@ -23,6 +23,7 @@ package cmd
 // The oracle is written from the property statement only (see c20Check / admit / final()).
 
 import (
+	"encoding/json"
 	"errors"
 	"fmt"
 	"io"
@@ -75,6 +76,9 @@ type c20Scen struct {
 	// fully explored requests is mostly redundant: the system returns to nearly the same rest state in between).
 	class []string
 	canon []bool
+	// offer the "Re-listening after reload" branch of the main loop (listener == nil while a hand-off is pending; the
+	// worker always installs a listener before it begins a hand-off, so the branch only exists statically)
+	relisten bool
 }
 
 func (sc *c20Scen) classOf(req int) string {
@@ -113,6 +117,7 @@ type c20H struct {
 	readyChan  chan bool
 	selCase    int
 	pprof      *http.Server
+	mainSet    []*c20Path
 
 	// the progress "file"
 	code    byte
@@ -157,7 +162,7 @@ type c20H struct {
 
 	viol       []string
 	violDetail []any
-	trace      []string
+	trace      c20Trace
 }
 
 var c20Cur *c20H
@@ -175,9 +180,30 @@ func (h *c20H) violate(sig string, detail any) {
 	}
 }
 
-func (h *c20H) tr(s string) {
-	if len(h.trace) < 400 {
-		h.trace = append(h.trace, s)
+// the event trace (violation detail): step events are stored unformatted, the rare other events as text
+type c20Ev struct{ role, name string }
+
+type c20Trace []c20Ev
+
+func (t c20Trace) MarshalJSON() ([]byte, error) { return json.Marshal(t.lines()) }
+
+func (t c20Trace) lines() []string {
+	out := make([]string, 0, len(t))
+	for _, e := range t {
+		if e.role == "" {
+			out = append(out, e.name)
+		} else {
+			out = append(out, e.role+": "+e.name)
+		}
+	}
+	return out
+}
+
+func (t c20Trace) String() string { return "\n  " + strings.Join(t.lines(), "\n  ") }
+
+func (h *c20H) tr(f string, a ...any) {
+	if len(h.trace) < 600 {
+		h.trace = append(h.trace, c20Ev{"", fmt.Sprintf(f, a...)})
 	}
 }
 
@@ -250,7 +276,7 @@ func (h *c20H) installHooks() {
 			h.admLastContent = content
 		}
 		h.code, h.content = code, content
-		h.tr(fmt.Sprintf("T%d progress:=%c %q", tid, code, content))
+		h.tr("T%d progress:=%c %q", tid, code, content)
 		if (code == consts.ReloadDone || code == consts.ReloadError) && content == "c20-model" {
 			// an ANSWER written by the thread that processes the request
 			for i := range h.answered {
@@ -283,7 +309,7 @@ func (h *c20H) installHooks() {
 			h.retireInFlight--
 		}
 		outbounddialer.EndReloadProxyFailureSuppression()
-		h.tr(fmt.Sprintf("T%d endSuppression -> %d", tid, outbounddialer.VerifC20SuppressionCount()))
+		h.tr("T%d endSuppression -> %d", tid, outbounddialer.VerifC20SuppressionCount())
 	}
 	// resetting the sticky proxy-IP cache is unrelated to the property; the seam is replaced by a counter
 	resetReloadProxyRuntimeState = func() { h.resets++ }
@@ -291,26 +317,51 @@ func (h *c20H) installHooks() {
 
 // ---- the trie walk over generated paths ---------------------------------------------------------------------------
 
+// c20Class classifies a worker path by the events it contains (used to partition the exploration, never the oracle).
 func c20Class(p *c20Path) string {
 	cls := "fail"
+	rollback := false
 	for _, s := range p.Steps {
-		if s.N == "beginHandoff()" {
+		switch {
+		case s.N == "setReloadError(err)" && cls == "fail":
+			rollback = true
+		case s.N == "beginHandoff()" && cls == "fail":
 			cls = "nonstaged"
-		}
-	}
-	for _, s := range p.Steps {
-		if strings.HasPrefix(s.N, "setPendingStagedHandoff") {
+		case strings.HasPrefix(s.N, "setPendingStagedHandoff"):
 			cls = "staged"
 		}
 	}
+	if cls == "nonstaged" && rollback {
+		cls = "nonstaged-rollback"
+	}
 	return cls
+}
+
+func c20InClass(p *c20Path, classes string) bool {
+	if classes == "" {
+		return true
+	}
+	c := c20Class(p)
+	for _, x := range strings.Split(classes, ",") {
+		if x == c {
+			return true
+		}
+	}
+	return false
+}
+
+// c20Relisten: main-loop paths of the "Re-listening after reload" branch (`listener == nil` while reloading).
+func c20Relisten(p *c20Path) bool {
+	return strings.Contains(p.Decisions, "listener == nil=true") && len(p.Steps) > 3
 }
 
 func (h *c20H) step(role string, name string, f func()) {
 	tid := vsched.ThreadID()
 	h.inEv[tid]++
 	h.bump()
-	h.tr(role + ": " + name)
+	if len(h.trace) < 600 {
+		h.trace = append(h.trace, c20Ev{role, name})
+	}
 	switch role {
 	case "W":
 		h.workerAt = name
@@ -423,7 +474,7 @@ func (h *c20H) workerLoop() {
 		if cls := h.sc.classOf(h.workerIdx); cls != "" {
 			set = nil
 			for _, p := range c20WorkerPaths {
-				if p.Exit != "" || c20Class(p) == cls {
+				if p.Exit != "" || c20InClass(p, cls) {
 					set = append(set, p)
 				}
 			}
@@ -458,7 +509,7 @@ func (h *c20H) mainLoop() {
 			h.mainAt = "stopped"
 			return
 		}
-		p := h.walk("M", c20MainPaths, h.workerIdx)
+		p := h.walk("M", h.mainSet, h.workerIdx)
 		if p == nil {
 			h.mainAt = "model-gap"
 			return
@@ -483,7 +534,7 @@ func (h *c20H) signalThread() {
 		select {
 		case h.sigs <- s:
 			h.delivered++
-			h.tr(fmt.Sprintf("signal %v delivered", s))
+			h.tr("signal %v delivered", s)
 		default:
 			h.dropped++
 		}
@@ -584,7 +635,7 @@ func (h *c20H) admit(isSuspend bool, f func() bool) {
 	act1 := h.activityAll - h.activity[tid]
 	h.admActive = false
 	if ok {
-		h.tr(fmt.Sprintf("request #%d ACCEPTED (suspend=%v)", h.accepted+1, isSuspend))
+		h.tr("request #%d ACCEPTED (suspend=%v)", h.accepted+1, isSuspend)
 		// at most one request in progress: the previous accepted request must have been answered ...
 		for i, a := range h.answered {
 			if !a {
@@ -607,7 +658,7 @@ func (h *c20H) admit(isSuspend bool, f func() bool) {
 		return
 	}
 	h.refused++
-	h.tr(fmt.Sprintf("request REFUSED (suspend=%v) writes=%q", isSuspend, string(h.admWrites)))
+	h.tr("request REFUSED (suspend=%v) writes=%q", isSuspend, string(h.admWrites))
 	// a refused request is reported busy and writes nothing but the busy report
 	if len(h.admWrites) == 0 {
 		h.violate("refused request was not reported busy (no progress report written)", h.trace)
@@ -670,6 +721,15 @@ func c20Body(sc *c20Scen) {
 	outbounddialer.VerifC20ResetSuppression()
 	h.installHooks()
 	h.m, h.sigs = c20NewManager()
+	h.mainSet = c20MainPaths
+	if !sc.relisten {
+		h.mainSet = nil
+		for _, p := range c20MainPaths {
+			if !c20Relisten(p) {
+				h.mainSet = append(h.mainSet, p)
+			}
+		}
+	}
 	h.code, h.content = consts.ReloadDone, "" // Run() reports Done once the first generation serves
 
 	// threads are started one by one (each parks at its first blocking operation before the next one starts), and the
@@ -823,22 +883,25 @@ const (
 func VerifC20Scenarios(thorough bool) []*vsched.Scenario {
 	R, S := c20R, c20S
 	sig := func(s ...syscall.Signal) []syscall.Signal { return s }
-	// "X*" = request explored through every extracted alternative of class X, "x" = canonical representative only
+	// "X*" = request explored through every extracted alternative of class X, "x" = one canonical representative only;
+	// "+relisten" = the statically possible `listener == nil` branch of the main loop is offered too.
+	const NS = "nonstaged,nonstaged-rollback"
 	scens := []*c20Scen{
 		{name: "R,S: fail* then staged", signals: sig(R, S), class: []string{"fail", "staged"}, canon: []bool{false, true}},
 		{name: "S,R: staged* then nonstaged", signals: sig(S, R), class: []string{"staged", "nonstaged"}, canon: []bool{false, true}},
 		{name: "R,R: nonstaged* then fail", signals: sig(R, R), class: []string{"nonstaged", "fail"}, canon: []bool{false, true}},
-		{name: "R,S: staged then any*", signals: sig(R, S), class: []string{"staged", ""}, canon: []bool{true, false}},
-		{name: "S,R: nonstaged then any*", signals: sig(S, R), class: []string{"nonstaged", ""}, canon: []bool{true, false}},
+		{name: "R,S: staged then any* +relisten", signals: sig(R, S), class: []string{"staged", ""}, canon: []bool{true, false}, relisten: true},
+		{name: "S,R: nonstaged then any* +relisten", signals: sig(S, R), class: []string{"nonstaged", ""}, canon: []bool{true, false}, relisten: true},
 	}
 	if thorough {
 		scens = append(scens,
-			&c20Scen{name: "R,R: fail then any*", signals: sig(R, R), class: []string{"fail", ""}, canon: []bool{true, false}},
+			&c20Scen{name: "R,R: nonstaged+rollback* then fail +relisten", signals: sig(R, R), class: []string{NS, "fail"}, canon: []bool{false, true}, relisten: true},
+			&c20Scen{name: "R,S: fail* then fail*", signals: sig(R, S), class: []string{"fail", "fail"}, canon: []bool{false, false}},
+			&c20Scen{name: "R,R: fail then any*", signals: sig(R, R), class: []string{"fail", ""}, canon: []bool{true, false}, relisten: true},
 			&c20Scen{name: "R,S,R: fail* staged fail", signals: sig(R, S, R), class: []string{"fail", "staged", "fail"}, canon: []bool{false, true, true}},
 			&c20Scen{name: "S,R,R: staged* nonstaged staged", signals: sig(S, R, R), class: []string{"staged", "nonstaged", "staged"}, canon: []bool{false, true, true}},
 			&c20Scen{name: "R,R,S: nonstaged* fail nonstaged", signals: sig(R, R, S), class: []string{"nonstaged", "fail", "nonstaged"}, canon: []bool{false, true, true}},
-			&c20Scen{name: "R,S: fail* then fail*", signals: sig(R, S), class: []string{"fail", "fail"}, canon: []bool{false, false}},
-			&c20Scen{name: "R,S: staged* then staged*", signals: sig(R, S), class: []string{"staged", "staged"}, canon: []bool{false, false}},
+			&c20Scen{name: "R,S: staged* then staged* +relisten", signals: sig(R, S), class: []string{"staged", "staged"}, canon: []bool{false, false}, relisten: true},
 		)
 	}
 	var out []*vsched.Scenario
